@@ -2,8 +2,11 @@ import PdfModel.Core.Proto
 import PdfModel.Model.Parser
 import PdfModel.Model.ContentLoop
 import PdfModel.Model.ContentLoopEI
-import PdfModel.Model.XrefTableC01
+import PdfModel.Model.XrefTable
+import PdfModel.Model.XrefStreamRead
 import PdfModel.Drv.Obj
+import PdfModel.Model.DeriveTower
+import PdfModel.Generated.Schemas
 
 /-! Line-protocol handler for the C01 streams (bytes as hex, `-` = empty). The entry points that the C03
     package already serves (`c03.word`, `.peek`, `.back`, `.expect`, `.nextstream`, `.readn`, `.setpos`,
@@ -22,8 +25,12 @@ import PdfModel.Drv.Obj
                                    commit 4386f8d, white-space + token `EI` (`inlineImageEI`) — the harness names
                                    the one that mirrors the code under test (`INLINE_SEARCH` in c01_corr.rs)
                                    → ok <data start> <data stop> <pos> | fail <pos>
-  c01.xref <buf> <pos> <lens>      read_xref_and_trailer_at → table <sections> <trailer> <pos> | stream <pos> | err
-        sections: `first=e,e;first=…` with e = `f<next>.<gen>` | `n<pos>.<gen>`, `-` = none
+  c01.xref <buf> <pos> <lens> <0|1>  read_xref_and_trailer_at (`XrefTable.readXrefAt`, both formats; the flag is
+                                   `allow_xref_error`) → table <sections> <trailer> <pos> | stream <sections> <trailer>
+                                   | err | unmodelled (a stream dictionary outside the plain shape `typedSimple` reads)
+  c01.registry                     `Derive.registryOkB Generated.generatedSchemas` (the hypothesis of `typed_registry_total`)
+                                   → ok schemas=<n> defaults=<n> hand-leaves=<names> | not-ok …
+        sections: `first=e,e;first=…` with e = `f<next>.<gen>` | `n<pos>.<gen>` | `s<stream>.<index>`, `-` = none
 -/
 
 namespace DrvC01
@@ -49,6 +56,44 @@ def showEntry : Xref.XRef → String
 def showSub (s : Xref.Sub) : String := s!"{s.first}=" ++ ",".intercalate (s.entries.map showEntry)
 
 def showSubs (ss : List Xref.Sub) : String := if ss.isEmpty then "-" else ";".intercalate (ss.map showSub)
+
+def kw (t : String) : List UInt8 := t.toUTF8.data.toList
+
+def natList : List V → Option (List Nat)
+  | [] => some []
+  | .int n :: rest => if n ≥ 0 then (natList rest).map (n.toNat :: ·) else none
+  | _ => none
+
+/-- `Stream::<XRefInfo>::from_primitive` on the plain shape of a cross-reference stream dictionary (`/Type /XRef`,
+    direct non-negative integers, no filter, only the keys below); any other shape is answered `oof`, which the
+    handler reports as `unmodelled` (the typed reader is a parameter of `Model/XrefStreamRead`) -/
+def typedSimple (d : Dict (List UInt8)) : Out XrefTable.XInfo :=
+  let known := ["Type", "Size", "W", "Index", "Prev", "Length", "Root", "Info", "ID"].map kw
+  if !(d.all fun kv => known.contains kv.1) then .oof else
+  match dictGet d (kw "Type"), dictGet d (kw "Size"), dictGet d (kw "W") with
+  | some (.name t), some (.int size), some (.arr ws) =>
+    if t != kw "XRef" || size < 0 || size > 4294967295 then .oof else
+    match natList ws with
+    | none => .oof
+    | some w =>
+      let prevOk := match dictGet d (kw "Prev") with
+        | none => true
+        | some (.int n) => decide (-2147483648 ≤ n ∧ n ≤ 2147483647)
+        | _ => false
+      if !prevOk then .oof else
+      match dictGet d (kw "Index") with
+      | none => .ok ⟨w, [0, size.toNat]⟩
+      | some (.arr ix) =>
+        match natList ix with
+        | some index => if index.all (· ≤ 4294967295) then .ok ⟨w, index⟩ else .oof
+        | none => .oof
+      | some _ => .oof
+  | _, _, _ => .oof
+
+/-- the data of an unfiltered stream: the bytes of its file range (the lexer runs with offset 0) -/
+def dataSimple (buf : Buf) (_d : Dict (List UInt8)) : StreamInner → Out (List UInt8)
+  | .inFile _ _ lo hi => .ok (slice buf lo hi)
+  | .pending data => .ok data
 
 def noOracle : Oracle := { isEof := fun _ _ => false, opOk := fun _ _ => true, imgOk := fun _ => true }
 
@@ -101,14 +146,34 @@ def handle (args : List String) : String :=
       | some o => o.tag
       | none => "bad-request"
     | _, _ => "bad-request"
-  | ["c01.xref", b, p, lens] =>
-    match bufOf b, natOf p, lenMapOf lens with
-    | some buf, some pos, some lens =>
-      match readXrefAt (mkEnv false 0 lens) buf pos with
-      | .ok (.table secs d, q) => s!"table {showSubs secs} {showVal (.dict d)} {q}"
-      | .ok (.stream _ _, q) => s!"stream {q}"
+  | ["c01.xref", b, p, lens, ae] =>
+    match bufOf b, natOf p, lenMapOf lens, boolOf ae with
+    | some buf, some pos, some lens, some allowErr =>
+      let env := mkEnv false 0 lens
+      match next buf pos with
+      | .ok w =>
+        let isTable := slice buf w.1 w.2 == XrefTable.kwXref
+        match XrefTable.readXrefAt env typedSimple (dataSimple buf) allowErr buf pos with
+        | .ok (secs, d) =>
+          if isTable then
+            -- the cursor of the table branch (the dispatcher drops it)
+            match XrefTable.parseXrefTableAndTrailer env buf (XrefTable.defaultFuel buf) (defaultFuel buf) w.2 with
+            | .ok (_, q) => s!"table {showSubs secs} {showVal (.dict d)} {q}"
+            | o => s!"inconsistent:{o.tag}"
+          else s!"stream {showSubs secs} {showVal (.dict d)}"
+        | .oof => "unmodelled"
+        | o => o.tag
       | o => o.tag
-    | _, _, _ => "bad-request"
+    | _, _, _, _ => "bad-request"
+  | ["c01.registry"] =>
+    -- the decidable hypothesis `RegistryOk` of `Props/C01.typed_registry_total`, evaluated on the generated schemas
+    let G := Generated.generatedSchemas
+    let bad := (G.filter fun S => !S.dfltOk G).map (·.name)
+    let nd := (G.flatMap fun S => S.fields.filterMap (·.default)).length
+    let hand := ((G.flatMap fun S => S.fields.flatMap fun f => f.shape.leaves).filter
+      (fun n => Derive.isHand G (.leaf n))).eraseDups
+    if Derive.registryOkB G then s!"ok schemas={G.length} defaults={nd} hand-leaves={",".intercalate hand}"
+    else s!"not-ok defaults-that-do-not-evaluate-in={",".intercalate bad}"
   | _ => "bad-request"
 
 end DrvC01
